@@ -1,181 +1,15 @@
 import RsslVerif.Lemmas.FixpointElab
+import RsslVerif.Lemmas.FixpointArithDim
 set_option linter.unusedSimpArgs false
 /-!
-Lemmas for C04 `reelab_no_new_casts`, part 2: the type both operands of an arithmetic / comparison / bit / logical
-operator are converted to (`arithTarget`, `selectVectorRank`) is unchanged when an operand is replaced by an operand of
-that type.  Core Lean only.
+Lemmas for C04 `reelab_no_new_casts`, part 2b: inversion / introduction of `elabArith` and its stability under
+re-elaboration (the type-level facts are in `FixpointArithDim`).  Core Lean only.
 -/
 namespace RsslVerif.Lemmas.FixpointArith
 open RsslVerif.Gen.RankTable RsslVerif.Gen.TypingTables
 open RsslVerif.Model.Conv RsslVerif.Model.Overload RsslVerif.Model.IrTyping RsslVerif.Model.Elab
 open RsslVerif.Model.Fixpoint RsslVerif.Lemmas.ElabConv RsslVerif.Lemmas.Elab RsslVerif.Lemmas.ElabExact
-open RsslVerif.Lemmas.ElabRelease RsslVerif.Lemmas.FixpointElab
-
-def isEnum : Layer → Bool
-  | .enum _ => true
-  | _ => false
-
-/-! ## dimensions -/
-
-/-- `select_vector_rank` on the dimensions -/
-def selD : Dim → Dim → Option Dim
-  | .scalar, .scalar => some .scalar
-  | .scalar, .vector x => some (.vector x)
-  | .vector x, .scalar => some (.vector x)
-  | .vector x1, .vector x2 =>
-    if x2 = 1 then some (.vector x1) else if x1 = 1 then some (.vector x2)
-    else if x1 < x2 then some (.vector x1) else some (.vector x2)
-  | .scalar, .matrix x y => some (.matrix x y)
-  | .matrix x y, .scalar => some (.matrix x y)
-  | .matrix x1 y1, .matrix x2 y2 => if x1 = x2 ∧ y1 = y2 then some (.matrix x1 y1) else none
-  | _, _ => none
-
-theorem selectVectorRank_eq (l r : Layer) : selectVectorRank l r = selD l.opDim r.opDim := by
-  unfold selectVectorRank selD
-  cases l.opDim <;> cases r.opDim <;> rfl
-
-theorem selD_idem {da db d : Dim} (h : selD da db = some d) :
-    selD d db = some d ∧ selD da d = some d ∧ selD d d = some d := by
-  cases da <;> cases db <;> simp only [selD] at h
-  all_goals (try (simp at h))
-  all_goals (try subst h)
-  all_goals (try (simp [selD]; done))
-  · -- vector, vector
-    rename_i x1 x2
-    split at h
-    · simp at h; subst h; rename_i h2; subst h2; simp [selD]
-    · split at h
-      · simp at h; subst h; rename_i h2 h1; subst h1; simp [selD, h2]
-      · split at h
-        · simp at h; subst h; rename_i h2 h1 hlt
-          simp [selD, h2, h1, hlt]
-        · simp at h; subst h; rename_i h2 h1 hlt
-          simp [selD, h2, h1, hlt]
-  · -- matrix, matrix
-    rename_i x1 y1 x2 y2
-    obtain ⟨⟨rfl, rfl⟩, rfl⟩ := h
-    simp [selD]
-
-theorem opDim_ofDim (s : Scalar) (d : Dim) : (Layer.ofDim s d).opDim = d := by
-  cases d <;> rfl
-
-theorem nonVector_ofDim (s : Scalar) (d : Dim) : (Layer.ofDim s d).nonVector = .scalar s := by
-  cases d <;> rfl
-
-theorem isVecOrMat_iff (l : Layer) : l.isVecOrMat = true ↔ l.opDim ≠ .scalar := by
-  cases l <;> simp [Layer.isVecOrMat, Layer.opDim]
-
-/-! ## the scalar type -/
-
-/-- `arithTarget` reads only the flags of the operator, whether an operand is a vector / matrix, and the two
-    non-vector types -/
-def aT (sc ri vm : Bool) (x y : Layer) : Except Err Layer :=
-  if sc then
-    if vm then .error (.reject "ShortCircuitingVector") else .ok (.scalar .bool)
-  else
-    if ri && !nvIsInteger x then .error (.reject "IntegerTypeExpected")
-    else if ri && !nvIsInteger y then .error (.reject "IntegerTypeExpected")
-    else
-      match nvRank x with
-      | none => .error (.reject "NumericTypeExpected")
-      | some lo =>
-        match nvRank y with
-        | none => .error (.reject "NumericTypeExpected")
-        | some ro =>
-          let t := if lo > ro then x else y
-          if t.extractScalar = some .bool then .ok (.scalar .int32) else .ok t
-
-theorem arithTarget_eq (o : BinOp) (la lb : Layer) :
-    arithTarget o la lb = aT o.shortCircuit o.requireInteger (la.isVecOrMat || lb.isVecOrMat) la.nonVector lb.nonVector := by
-  rfl
-
-theorem aT_scalar_idem : ∀ (ri : Bool) (sa sb ts : Scalar) (v : Bool),
-    aT false ri v (.scalar sa) (.scalar sb) = .ok (.scalar ts) →
-    ∀ v', aT false ri v' (.scalar ts) (.scalar sb) = .ok (.scalar ts) ∧
-      aT false ri v' (.scalar sa) (.scalar ts) = .ok (.scalar ts) ∧
-      aT false ri v' (.scalar ts) (.scalar ts) = .ok (.scalar ts) := by
-  intro ri sa sb ts v h v'
-  cases ri <;> cases sa <;> cases sb <;> simp [aT, nvRank, nvIsInteger, nonVectorRank, isIntegerScalar, Layer.extractScalar] at h <;>
-    subst h <;> simp [aT, nvRank, nvIsInteger, nonVectorRank, isIntegerScalar, Layer.extractScalar]
-
-/-- a float literal operand never makes the operator work on `int` -/
-theorem aT_floatLit_not_int32 (sc ri v : Bool) (y : Layer) :
-    aT sc ri v (.scalar .floatLiteral) y ≠ .ok (.scalar .int32) ∧ aT sc ri v y (.scalar .floatLiteral) ≠ .ok (.scalar .int32) := by
-  cases sc <;> cases ri <;> cases v <;> cases y <;>
-    simp [aT, nvRank, nvIsInteger, nonVectorRank, isIntegerScalar, Layer.extractScalar, enumRank] <;>
-    (rename_i s; cases s <;> simp +decide [nonVectorRank, isIntegerScalar])
-
-/-! ## layers -/
-
-theorem nonVector_not_enum {l : Layer} (h : isEnum l = false) : isEnum l.nonVector = false := by
-  cases l <;> simp_all [isEnum, Layer.nonVector]
-
-theorem aT_true (ri vm : Bool) (x y : Layer) :
-    aT true ri vm x y = if vm then .error (.reject "ShortCircuitingVector") else .ok (.scalar .bool) := by
-  simp [aT]
-
-theorem aT_false_scalars {ri v : Bool} {x y t : Layer} (hx : isEnum x = false) (hy : isEnum y = false)
-    (h : aT false ri v x y = .ok t) : ∃ sa sb, x = .scalar sa ∧ y = .scalar sb := by
-  cases x <;> cases y <;> simp [isEnum] at hx hy <;> simp [aT, nvRank] at h <;>
-    first
-    | exact ⟨_, _, rfl, rfl⟩
-    | (exfalso; repeat' split at h
-       all_goals simp at h)
-
-theorem ofDim_not_enum (s : Scalar) (d : Dim) : isEnum (Layer.ofDim s d) = false := by
-  cases d <;> rfl
-
-/-- **The operator's working type is stable**: replacing either operand type by the working type itself (what an
-    emitted cast has) leaves the working type unchanged. -/
-theorem arith_stable {o : BinOp} {la lb la0 lb0 : Layer} {ts : Scalar} {dim : Dim}
-    (hna : isEnum la = false) (hnb : isEnum lb = false)
-    (ht : arithTarget o la lb = .ok (.scalar ts)) (hd : selectVectorRank la lb = some dim)
-    (ha : la0 = la ∨ la0 = Layer.ofDim ts dim) (hb : lb0 = lb ∨ lb0 = Layer.ofDim ts dim) :
-    isEnum la0 = false ∧ isEnum lb0 = false ∧ arithTarget o la0 lb0 = .ok (.scalar ts) ∧
-      selectVectorRank la0 lb0 = some dim := by
-  have he0 : isEnum la0 = false := by rcases ha with rfl | rfl; exact hna; exact ofDim_not_enum _ _
-  have he1 : isEnum lb0 = false := by rcases hb with rfl | rfl; exact hnb; exact ofDim_not_enum _ _
-  refine ⟨he0, he1, ?_, ?_⟩
-  · rw [arithTarget_eq] at ht ⊢
-    rw [selectVectorRank_eq] at hd
-    cases hsc : o.shortCircuit
-    · rw [hsc] at ht
-      obtain ⟨sa, sb, hx, hy⟩ := aT_false_scalars (nonVector_not_enum hna) (nonVector_not_enum hnb) ht
-      rw [hx, hy] at ht
-      obtain ⟨h1, h2, h3⟩ := aT_scalar_idem _ _ _ _ _ ht (la0.isVecOrMat || lb0.isVecOrMat)
-      rcases ha with rfl | rfl <;> rcases hb with rfl | rfl <;> simp only [nonVector_ofDim, hx, hy]
-      · have h4 : ∀ v v', aT false o.requireInteger v (.scalar sa) (.scalar sb) = aT false o.requireInteger v' (.scalar sa) (.scalar sb) := by
-          intro v v'; rfl
-        rw [h4 _ _]; exact ht
-      · exact h2
-      · exact h1
-      · exact h3
-    · rw [hsc, aT_true] at ht
-      rw [aT_true]
-      cases hvm : (la.isVecOrMat || lb.isVecOrMat)
-      · rw [hvm] at ht
-        simp at ht
-        subst ht
-        simp only [Bool.or_eq_false_iff] at hvm
-        have hda : la.opDim = .scalar := by
-          cases la <;> simp_all [Layer.isVecOrMat, Layer.opDim]
-        have hdb : lb.opDim = .scalar := by
-          cases lb <;> simp_all [Layer.isVecOrMat, Layer.opDim]
-        rw [hda, hdb] at hd
-        simp [selD] at hd
-        subst hd
-        have hv0 : (la0.isVecOrMat || lb0.isVecOrMat) = false := by
-          have hs : (Layer.ofDim Scalar.bool Dim.scalar).isVecOrMat = false := rfl
-          rcases ha with rfl | rfl <;> rcases hb with rfl | rfl <;> simp [hvm.1, hvm.2, hs]
-        simp [hv0]
-      · rw [hvm] at ht; simp at ht
-  · rw [selectVectorRank_eq] at hd ⊢
-    obtain ⟨h1, h2, h3⟩ := selD_idem hd
-    rcases ha with rfl | rfl <;> rcases hb with rfl | rfl <;> (try simp only [opDim_ofDim])
-    · exact hd
-    · exact h2
-    · exact h1
-    · exact h3
+open RsslVerif.Lemmas.ElabRelease RsslVerif.Lemmas.FixpointElab RsslVerif.Lemmas.FixpointArithDim
 
 /-! ## `elabArith`: inversion and introduction -/
 
@@ -225,9 +59,10 @@ theorem elabArith_inv {o : BinOp} {a b n : IExpr} {τa τb τ : ETy} (h : elabAr
     ∃ ts dim ca cb a2 b2 i, isEnum τa.ty.layer = false ∧ isEnum τb.ty.layer = false ∧
       arithTarget o τa.ty.layer τb.ty.layer = .ok (.scalar ts) ∧
       selectVectorRank τa.ty.layer τb.ty.layer = some dim ∧
-      find τa (DTy ts dim) = .ok (some ca) ∧ find τb (DTy ts dim) = .ok (some cb) ∧
+      find τa (DTy (arithScalar ts dim) dim) = .ok (some ca) ∧ find τb (DTy (arithScalar ts dim) dim) = .ok (some cb) ∧
       applyConv ca a = .ok a2 ∧ applyConv cb b = .ok b2 ∧ o.toIOp = some i ∧
-      opReturn i [DTy ts dim, DTy ts dim] = .ok τ ∧ n = .op i (.cons a2 (.cons b2 .nil)) := by
+      opReturn i [DTy (arithScalar ts dim) dim, DTy (arithScalar ts dim) dim] = .ok τ ∧
+      n = .op i (.cons a2 (.cons b2 .nil)) := by
   unfold elabArith at h
   split at h
   · simp at h
@@ -248,7 +83,7 @@ theorem elabArith_inv {o : BinOp} {a b n : IExpr} {τa τb τ : ETy} (h : elabAr
           · simp at h
           · rename_i cb hcb
             obtain ⟨ta, a2, b2, i, h1, h2, h3, h4, h5, h6, h7⟩ := arithBuild_inv h
-            have hta : ta = DTy ts dim := by
+            have hta : ta = DTy (arithScalar ts dim) dim := by
               have := targetType_ok hca
               rw [h1] at this
               simp at this
@@ -262,9 +97,10 @@ theorem elabArith_intro {o : BinOp} {a b a2 b2 : IExpr} {τa τb τ : ETy} {ts :
     (hna : isEnum τa.ty.layer = false) (hnb : isEnum τb.ty.layer = false)
     (hts : arithTarget o τa.ty.layer τb.ty.layer = .ok (.scalar ts))
     (hdim : selectVectorRank τa.ty.layer τb.ty.layer = some dim)
-    (hca : find τa (DTy ts dim) = .ok (some ca)) (hcb : find τb (DTy ts dim) = .ok (some cb))
+    (hca : find τa (DTy (arithScalar ts dim) dim) = .ok (some ca))
+    (hcb : find τb (DTy (arithScalar ts dim) dim) = .ok (some cb))
     (h3 : applyConv ca a = .ok a2) (h4 : applyConv cb b = .ok b2) (h5 : o.toIOp = some i)
-    (h6 : opReturn i [DTy ts dim, DTy ts dim] = .ok τ) :
+    (h6 : opReturn i [DTy (arithScalar ts dim) dim, DTy (arithScalar ts dim) dim] = .ok τ) :
     elabArith o a τa b τb = .ok (.op i (.cons a2 (.cons b2 .nil)), τ) := by
   unfold elabArith
   split
@@ -283,8 +119,8 @@ theorem DTy_int32 {ts : Scalar} {dim : Dim} (h : DTy ts dim = (scalarTy .int32).
 
 /-- layer of a re-elaborated left operand -/
 theorem back_layer_left {o : BinOp} {a' a2 a0 : IExpr} {τa τa0 : ETy} {lb : Layer} {ts : Scalar} {dim : Dim}
-    (hb : Back τa (DTy ts dim) a' a2 a0 τa0) (ht : arithTarget o τa.ty.layer lb = .ok (.scalar ts)) :
-    τa0.ty.layer = τa.ty.layer ∨ τa0.ty.layer = Layer.ofDim ts dim := by
+    (hb : Back τa (DTy (arithScalar ts dim) dim) a' a2 a0 τa0) (ht : arithTarget o τa.ty.layer lb = .ok (.scalar ts)) :
+    τa0.ty.layer = τa.ty.layer ∨ τa0.ty.layer = Layer.ofDim (arithScalar ts dim) dim := by
   cases hb with
   | same => exact Or.inl rfl
   | exact _ => exact Or.inr rfl
@@ -292,13 +128,15 @@ theorem back_layer_left {o : BinOp} {a' a2 a0 : IExpr} {τa τa0 : ETy} {lb : La
     rcases hτ with rfl | rfl
     · exact Or.inl rfl
     · exfalso
-      obtain ⟨rfl, rfl⟩ := DTy_int32 hD
+      obtain ⟨h1, rfl⟩ := DTy_int32 hD
+      rw [arithScalar_scalar] at h1
+      subst h1
       rw [arithTarget_eq] at ht
       exact (aT_floatLit_not_int32 _ _ _ _).1 ht
 
 theorem back_layer_right {o : BinOp} {b' b2 b0 : IExpr} {τb τb0 : ETy} {la : Layer} {ts : Scalar} {dim : Dim}
-    (hb : Back τb (DTy ts dim) b' b2 b0 τb0) (ht : arithTarget o la τb.ty.layer = .ok (.scalar ts)) :
-    τb0.ty.layer = τb.ty.layer ∨ τb0.ty.layer = Layer.ofDim ts dim := by
+    (hb : Back τb (DTy (arithScalar ts dim) dim) b' b2 b0 τb0) (ht : arithTarget o la τb.ty.layer = .ok (.scalar ts)) :
+    τb0.ty.layer = τb.ty.layer ∨ τb0.ty.layer = Layer.ofDim (arithScalar ts dim) dim := by
   cases hb with
   | same => exact Or.inl rfl
   | exact _ => exact Or.inr rfl
@@ -306,7 +144,9 @@ theorem back_layer_right {o : BinOp} {b' b2 b0 : IExpr} {τb τb0 : ETy} {la : L
     rcases hτ with rfl | rfl
     · exact Or.inl rfl
     · exfalso
-      obtain ⟨rfl, rfl⟩ := DTy_int32 hD
+      obtain ⟨h1, rfl⟩ := DTy_int32 hD
+      rw [arithScalar_scalar] at h1
+      subst h1
       rw [arithTarget_eq] at ht
       exact (aT_floatLit_not_int32 _ _ _ _).2 ht
 
@@ -318,12 +158,16 @@ theorem elabArith_stable {o : BinOp} {a' b' n : IExpr} {τa τb τ : ETy}
       applyConv ca a' = .ok a2 ∧ applyConv cb b' = .ok b2 ∧ o.toIOp = some i ∧ n = .op i (.cons a2 (.cons b2 .nil)) ∧
       (∀ a0 τa0 b0 τb0, Back τa D a' a2 a0 τa0 → Back τb D b' b2 b0 τb0 → elabArith o a0 τa0 b0 τb0 = .ok (n, τ)) := by
   obtain ⟨ts, dim, ca, cb, a2, b2, i, hna, hnb, hts, hdim, hca, hcb, h3, h4, h5, h6, h7⟩ := elabArith_inv h
-  refine ⟨DTy ts dim, ca, cb, a2, b2, i, hca, hcb, rfl, h3, h4, h5, h7, ?_⟩
+  refine ⟨DTy (arithScalar ts dim) dim, ca, cb, a2, b2, i, hca, hcb, rfl, h3, h4, h5, h7, ?_⟩
   intro a0 τa0 b0 τb0 hba hbb
-  obtain ⟨hna0, hnb0, hts0, hdim0⟩ := arith_stable hna hnb hts hdim (back_layer_left hba hts) (back_layer_right hbb hts)
+  -- the working kind of the re-elaborated operands may differ from `ts` (`bool3 + 1`: `IntLiteral`; `(int3)b + (int3)1`:
+  -- `int`), but not after the remap of fix 40c6233: the working type is the same
+  obtain ⟨hna0, hnb0, ts0, hts0, hsc0, hdim0⟩ :=
+    arith_stable_remap hna hnb hts hdim (back_layer_left hba hts) (back_layer_right hbb hts)
   obtain ⟨ca0, hca0, h30⟩ := back_find hca h3 hba
   obtain ⟨cb0, hcb0, h40⟩ := back_find hcb h4 hbb
   rw [h7]
+  rw [← hsc0] at hca0 hcb0 h6
   exact elabArith_intro hna0 hnb0 hts0 hdim0 hca0 hcb0 h30 h40 h5 h6
 
 end RsslVerif.Lemmas.FixpointArith
